@@ -63,8 +63,9 @@ func (g *gzipResponseWriter) sendHeader() {
 }
 
 func (g *gzipResponseWriter) Write(b []byte) (int, error) {
-	// Check if adding this data would exceed max buffer size
-	if g.buf.Len()+len(b) > MaxCompressionBufferSize {
+	// Check if adding this data would exceed max buffer size (once it has, the
+	// response is streamed: later writes must not go back into the buffer)
+	if g.bufferExceeded || g.buf.Len()+len(b) > MaxCompressionBufferSize {
 		// Mark as exceeded and fall back to streaming uncompressed
 		if !g.bufferExceeded {
 			g.bufferExceeded = true
